@@ -76,7 +76,9 @@ CheckSum(e) ==
 
 \* widening product: value a*b in a register of e.bits + e.bits2 bits
 CheckWMul(e) ==
-  [ wide |-> Eq(e, "wide", Mul(e.a, e.b)) /\ Lt2(e.wide, e.bits + e.bits2) ]
+  [ wide |-> Eq(e, "wide", Mul(e.a, e.b)) /\ Lt2(e.wide, e.bits + e.bits2),
+    \* a result type of the wrong size is documented to panic
+    wrong_size |-> Panics(e, "ws_wide701") /\ Panics(e, "ws_wide1") ]
 
 \* ---- C03 ---------------------------------------------------------------
 \* (q, r) is the Euclidean quotient and remainder of a by d # 0
